@@ -342,6 +342,19 @@ def check(ctx):
     from .common_domains import name_alias_domains_rule
     name_alias_domains_rule(ctx, "C13.R7", ("apischema.discriminators",))
 
+    # ---------------- R11: the alternatives reach every visitor in declaration order
+    ctx.rule("C13.R11", "the base dispatcher hands the alternatives of a union to union() exactly as get_args returns them, and the conversions visitor visits them in that order: 'the first accepting alternative' is the first declared one in every view", floor=3)
+    vv = model.func("apischema.visitor.Visitor.visit")
+    rebinds = [a for a in walk_no_nested(vv.node) if isinstance(a, (ast.Assign, ast.AugAssign, ast.AnnAssign)) and any(isinstance(x, ast.Name) and x.id in ("args", "origin") and isinstance(x.ctx, ast.Store) for x in ast.walk(a))]
+    ctx.check(len(rebinds) == 1 and "get_args(tp)" in norm(rebinds[0]), "C13.R11", f"{vv.qualname}:args", None,
+              f"`{short(rebinds[1], 70) if len(rebinds) > 1 else ''}` rebinds the arguments of the visited type before dispatching: the alternatives of a union are visited in another order than the declared one (e.g. None moved last - Union[None, str, int] then gives '' instead of None for '' under coercion)",
+              vv, rebinds[1] if len(rebinds) > 1 else vv.node, detail="origin, args = get_origin_or_type(tp), get_args(tp) - never rebound")
+    ucalls = [c for c in walk_no_nested(vv.node) if isinstance(c, ast.Call) and norm(c.func) == "self.union"]
+    ctx.check(bool(ucalls) and all(norm(c.args[0]) in ("args", "args[0]") for c in ucalls), "C13.R11", f"{vv.qualname}:union(args)", None, "union() does not receive the arguments of the Union as they are", vv, ucalls[0] if ucalls else vv.node, detail="self.union(args)")
+    ur = model.func("apischema.conversions.visitor.ConversionsVisitor._union_results")
+    loops11 = [n for n in walk_no_nested(ur.node) if isinstance(n, ast.For)]
+    ctx.check(len(loops11) == 1 and norm(loops11[0].iter) == ur.params[1], "C13.R11", f"{ur.qualname}:order", None, "the alternatives are not visited in the order they are given (sorted / reversed / filtered iteration)", ur, loops11[0] if loops11 else ur.node, detail=f"for alt in {ur.params[1]}")
+
     # ---------------- R10: str is not a collection
     ctx.rule("C13.R10", "serialization of a union: an alternative annotated with an abstract collection (Sequence, Collection, ...) does not capture str / bytes values, which are instances of those classes but no collections for the data model (deserialization refuses a string for Sequence[...]): the value goes on to the str alternative", floor=2)
     un = model.func("apischema.serialization.SerializationMethodVisitor.union")
@@ -396,6 +409,7 @@ def check(ctx):
     ctx.check(preorder or derived_first, "C13.R8", f"{rs_f.qualname}:order", None, "rec_subclasses no longer yields a class before its own subclasses and the serializer does not reorder: the order of the alternatives is unknown", rs_f, rs_f.node, detail="parent, then its subclasses", nontrivial=False)
 
 def mutants(mb):
+    mb.add_text("none-alternative-moved-last", "apischema/visitor.py", "            if is_union(origin):\n                return self.union", "            if is_union(origin):\n                if type(None) in args:\n                    args = (*(arg for arg in args if arg is not type(None)), type(None))\n                return self.union", "C13.R11", "args")
     mb.add_text("str-captured-by-sequence-alternative", "apischema/serialization/__init__.py", "                    alt_cls = AbstractCollectionAlternative\n", "                    alt_cls = UnionAlternative\n", "C13.R10", "refuses-str")
     mb.add_text("abstract-collection-alternative-accepts-str", "apischema/serialization/methods.py", "        if isinstance(obj, (str, bytes)):\n            # caught by UnionMethod, which goes on with the next alternatives\n            raise TypeCheckError(f\"Expected {self.cls}, found {obj.__class__}\", [])\n", "", "C13.R10", "refuses-str")
     mb.add_text("by-type-exact-class-only", "apischema/deserialization/methods.py", "            for data_cls, method in self.method_by_cls.items():\n                if isinstance(data, data_cls):\n                    break\n            else:\n                raise bad_type(data, *self.method_by_cls)\n", "            raise bad_type(data, *self.method_by_cls)\n", "C13.R1", "subclasses")
